@@ -108,9 +108,15 @@ class IncludeExcludeTree():
                 if key in exclude:
                     continue
                 elif key in self.subtrees:
+                    subtree = self.subtrees[key]
                     if isinstance(value, dict):
-                        # otherwise it won't be selected anyway
-                        result[key] = self.subtrees[key].get(value)
+                        subvalue = subtree.get(value)
+                        # nothing selected is the same as no key
+                        if subvalue:
+                            result[key] = subvalue
+                    elif subtree.include:
+                        # not a dict: there are no subkeys to exclude
+                        result[key] = value
                 else:
                     result[key] = value
         else:
@@ -120,9 +126,13 @@ class IncludeExcludeTree():
                 if key in include:
                     result[key] = value
                 elif key in self.subtrees:
+                    subtree = self.subtrees[key]
                     if isinstance(value, dict):
-                        # otherwise it won't be selected
-                        result[key] = self.subtrees[key].get(value)
+                        subvalue = subtree.get(value)
+                        if subvalue:
+                            result[key] = subvalue
+                    elif subtree.include:
+                        result[key] = value
                 else:
                     continue
 
